@@ -1757,3 +1757,12 @@ def m_uuid4(I, args, kw):
 # =========================================================================================== with
 def with_stmt(I, s, frame):
     raise Unsupported('with statement')
+
+
+# =========================================================================================== logging
+import logging as _logging
+
+
+@model(_logging.getLogger)
+def m_get_logger(I, args, kw):
+    return Foreign(None)
